@@ -187,6 +187,23 @@ func c15Enumerate(f func(c c15Case, baseline bool) bool) {
 					if !f(c15Case{name, v}, false) {
 						return
 					}
+					// product: an absent optional input at p together with every element type at every
+					// other position (an absent input must not switch the type check off for the rest)
+					for q := 0; q < n; q++ {
+						if q == p {
+							continue
+						}
+						for _, d := range allNames {
+							if d == dts[q] {
+								continue
+							}
+							w := append([]string{}, v...)
+							w[q] = d
+							if !f(c15Case{name, w}, false) {
+								return
+							}
+						}
+					}
 				}
 			}
 		}
@@ -251,7 +268,7 @@ func sameOutcome(a, b opResult) string {
 
 func TestC15(t *testing.T) {
 	ev.Begin("C15",
-		"enumerated: every operator of GetOpNames x every input count 0..max+2 (Concat 0..6) x for each accepted count every one of the 14 element types at every position (other positions holding an allowed type) and nil at every optional position; "+
+		"enumerated: every operator of GetOpNames x every input count 0..max+2 (Concat 0..6) x for each accepted count every one of the 14 element types at every position (other positions holding an allowed type) and nil at every optional position, alone and combined with every element type at every other position; "+
 			"generated (rapid, stateful): 2..4 live instances of one operator name, each with its own generated attributes and inputs, looked up / initialised / applied in a drawn interleaving and compared with the same invocation run in isolation; unknown names (case variants, prefixes, empty, random strings). "+
 			"Non-trivial = every gate tuple other than the all-allowed baseline; every interleaving with >= 2 instances whose attributes differ. Distinct = the tuple / the invocation set.",
 		"the gate is observed through Operator.ValidateInputs on fresh instances; error kinds are identified with errors.As(*ops.InputError)")
